@@ -419,6 +419,7 @@ def verify_function(key, prop_prefix="", replayer=None, only_labels=None, engine
         st, env = initial_state(E)
         E.penv0 = env
         se = SpecEval(st, env, None, None, E)
+        se.assume_wf = True
         for cl in c.requires:
             st.assume(se.bool_of(cl.expr))
         if E.cls and E.cls in S.CLASSES and "self" in env:
